@@ -3,11 +3,13 @@ package main
 import (
 	"bytes"
 	"encoding/base64"
+	"errors"
 	"fmt"
 	"strings"
 	"sync"
 
 	"github.com/IBM/fluent-forward-go/fluent/protocol"
+	"github.com/google/uuid"
 	"github.com/tinylib/msgp/msgp"
 )
 
@@ -139,6 +141,10 @@ func init() {
 //         NC NewCompressedPackedForwardMessage | ND NewCompressed…FromBytes
 //   action: c = Chunk() | p<hex> = the caller puts this id into the options first, then Chunk() | n = nothing
 // all messages of one line live in the same process at the same time
+type failingReader struct{}
+
+func (failingReader) Read([]byte) (int, error) { return 0, errors.New("entropy source unavailable") }
+
 func cidsCtor(k string, i int) (protocol.ChunkEncoder, func() **protocol.MessageOptions, error) {
 	rec := map[string]interface{}{"k": int64(i)}
 	el := protocol.EntryList{{Timestamp: protocol.EventTimeNow(), Record: rec}, {Timestamp: protocol.EventTimeNow(), Record: rec}}
@@ -202,6 +208,16 @@ func init() {
 				id, _ = m.Chunk()
 			case 'c':
 				id, _ = m.Chunk()
+			case 'x':
+				// the random source fails while the id is drawn (the call may report an error or panic); once the
+				// source works again the message gets a proper id like any other
+				uuid.SetRand(failingReader{})
+				func() {
+					defer func() { _ = recover() }()
+					_, _ = m.Chunk()
+				}()
+				uuid.SetRand(nil)
+				id, _ = m.Chunk()
 			}
 			out = append(out, fmt.Sprintf("%s|%s|%s", before, hx([]byte(id)), renderOpts(*opts())))
 		}
@@ -228,7 +244,9 @@ func init() {
 					c = args[j-1][:2] // the same constructor twice in a row
 				}
 				act := "c"
-				switch r.Intn(6) {
+				switch r.Intn(7) {
+				case 2:
+					act = "x"
 				case 0:
 					act = "p" + hx(genChunkID(r))
 				case 1:
